@@ -590,6 +590,7 @@ def main(argv):
     samples = []
     bump = lambda d, k, n=1: d.__setitem__(k, d.get(k, 0) + n)
     round_size = 12000 if tier == "thorough" else 4000
+    origin_ok = set()      # base sets whose hull at the origin TLC accepted (the origin placement always comes first)
     scratch = "c16/run_%d" % os.getpid()      # concurrent runs (bin/try_patch) must not share shard directories
     for r0 in range(0, len(items), round_size):
         part = items[r0:r0 + round_size]
@@ -608,9 +609,9 @@ def main(argv):
         total += len(cases)
         byitem = {it["k"]: it for it in part}
         # hull records of the same base set at the origin that TLC accepted (input predicate of DEV_HULL_FAR)
-        origin_ok = {byitem[c["item"]]["base"] for c in cases
-                     if c["kind"] == "hull" and byitem[c["item"]]["place"] == "origin"
-                     and c["id"] not in rejects}
+        origin_ok |= {byitem[c["item"]]["base"] for c in cases
+                      if c["kind"] == "hull" and byitem[c["item"]]["place"] == "origin"
+                      and c["id"] not in rejects}
         for c in cases:
             it = byitem[c["item"]]
             bump(kinds, c["kind"])
